@@ -62,7 +62,7 @@ def main():
     finally:
         if scratch:
             sh("git -C /repo worktree remove --force %s" % REPO)
-            shutil.rmtree("/tmp/qentem_suite_build_seed", ignore_errors=True)
+            shutil.rmtree("/tmp/qentem_suite_build_seed_%d" % os.getpid(), ignore_errors=True)
 
 
 def main2(args, scratch):
@@ -81,7 +81,7 @@ def main2(args, scratch):
         return 2
     sh("git -C %s apply %s" % (REPO, patch))
     try:
-        s = sh(os.path.join(V, "tools", "run_suite.sh"), env=dict(os.environ, SUITE_SRC=REPO, SUITE_BUILD_DIR="/tmp/qentem_suite_build_seed" if scratch else "/tmp/qentem_suite_build"))
+        s = sh(os.path.join(V, "tools", "run_suite.sh"), env=dict(os.environ, SUITE_SRC=REPO, SUITE_BUILD_DIR=("/tmp/qentem_suite_build_seed_%d" % os.getpid()) if scratch else "/tmp/qentem_suite_build"))
         meta["suite_with_change"] = s.stdout.strip().split("\n")[-3:]
         suite_ok = "100% tests passed" in s.stdout
         rc1, out1 = demo(dsrc, "mut")
